@@ -393,6 +393,16 @@ func (c *fctx) globalFacts(g *ssa.Global, st *state) {
 		return
 	}
 	if !types.Identical(elem, types.Universe.Lookup("error").Type()) {
+		// an interface-typed variable assigned once, in its package initialiser, with a freshly boxed value is non-nil
+		if _, isI := types.Unalias(elem).Underlying().(*types.Interface); isI && c.P.GlobalInitBoxed(g) {
+			key := "G:" + g.String()
+			init := q("H0." + key)
+			c.region(&state{h: map[string]string{}}, key, "Iface")
+			if !c.used["global-fact:"+key] {
+				c.used["global-fact:"+key] = true
+				c.assume(fmt.Sprintf("(not (= %s nilI))", init))
+			}
+		}
 		return
 	}
 	if !c.P.ImmutableGlobal(g) {
